@@ -76,6 +76,50 @@ fn run(a: &vhcore::Args) -> i32 {
             }
         }
     }
+    // Space S5: the e2e "run" corpus against the maintainers' expected results
+    let s5_work = vhcore::verif_root().join("work").join("C01-s5");
+    let _ = std::fs::remove_dir_all(&s5_work);
+    let (s5, s5_skipped) = vh_comp::s5::run_s5(&pool, &s5_work, if thorough { 1 } else { 6 });
+    let mut s5_runs = 0u64;
+    for (case, resp) in &s5 {
+        match resp {
+            Err(e) => rep.violation(
+                &format!("C01|S5|worker-died|{}", case.name),
+                &format!("S5 {}: worker died: {e}", case.name),
+                json!({"e2e_test": case.name}),
+            ),
+            Ok(r) => {
+                for b in &r.builds {
+                    s5_runs += 1;
+                    evals += 1;
+                    let problem = if let Some(p) = &b.panic {
+                        Some((format!("compiler-panic@{}", b.panic_loc), format!("{p}")))
+                    } else if !b.ok {
+                        Some(("does-not-build".to_string(), b.error.clone()))
+                    } else {
+                        match &b.script {
+                            Some(run) if run.outcome == case.expect => {
+                                outcomes.add(&format!("{:?}", run.outcome));
+                                None
+                            }
+                            Some(run) => Some(("wrong-result".to_string(), format!("got {:?}, test.toml expects {:?}", run.outcome, case.expect))),
+                            None => Some(("did-not-run".to_string(), b.run_error.clone())),
+                        }
+                    };
+                    if let Some((kind, msg)) = problem {
+                        rep.violation(
+                            &format!("C01|S5|{kind}|{}", case.name),
+                            &format!("S5 {} [{}]: {msg}", case.name, b.label),
+                            json!({"e2e_test": case.name, "dir": case.src_dir, "build": b.label, "script_data": hex::encode(&case.script_data), "expected": format!("{:?}", case.expect)}),
+                        );
+                    }
+                }
+            }
+        }
+    }
+    let _ = std::fs::remove_dir_all(&s5_work);
+    rep.set("s5_e2e_runs", s5_runs);
+    rep.set("s5_e2e_skipped", s5_skipped.len() as u64);
     if outcomes.len() < 2 {
         vhcore::machinery_failure("vacuous: fewer than 2 distinct outcomes");
     }
